@@ -633,33 +633,38 @@ package node_info
 // C14/C01/C12 (snapshot): "every snapshot charges the pod's resources ... to the selected node" /
 // "pods already occupying the node (running, terminating, bound or being bound)": every pod of the list whose status
 // occupies the node (Allocated, Pipelined, Binding, Bound, Running, Releasing) has been handed to AddTask (which charges
-// it by status, see AddTask/addTaskResources) and is recorded on the node afterwards; pods in any other status
-// (Pending, Gated, Succeeded, Failed, Unknown: "their pods become schedulable again") are charged NOWHERE: if no pod of
-// the list occupies the node, the node accounting does not move at all.  Every pod of the list is registered in
+// it by status, see AddTask/addTaskResources) and is recorded on the node afterwards.  Exact accounting for 0 and 1
+// pods: no pod - nothing moves; one pod in any other status (Pending, Gated, Succeeded, Failed, Unknown: "their pods
+// become schedulable again") - nothing moves; one occupying pod - exactly its request moves, by status (firstCharged).
+// (The same for n pods is a sum over the list; the loop form "nothing moves while no visited pod occupies the node"
+// was dropped: its quantified antecedent made obligations take > 20 s.)  Every pod of the list is registered in
 // existingPodsMap under its UID and returned, in order.
 //@ func (*NodeInfo).AddTasksToNode
 //@   props C14 C01 C12 C10
 //@   requires nodeWF(ni) && podsWF(ni) && existingPodsMap != nil && existingPodsMap != ni.PodInfos
 //@   requires tasksAddable(ni, podInfos, 0)
+//@   requires forall i int :: 0 <= i && i < len(podInfos) ==> pod_status.isStatus(podInfos[i].Status)   // one of the declared statuses (what getTaskStatus returns): lets the clauses name the status class as a set (stActiveUsed) instead of a bit mask
 //@   modifies existingPodsMap[*], family(podInfos[0].AcceptedResource), family(podInfos[0].ResourceReceivedType), ni.PodInfos[*], ni.LegacyMIGTasks[*], ni.Used.milliCpu, ni.Used.memory, ni.Used.gpus, ni.Used.scalarResources[*], ni.Idle.milliCpu, ni.Idle.memory, ni.Idle.gpus, ni.Idle.scalarResources[*], ni.Releasing.milliCpu, ni.Releasing.memory, ni.Releasing.gpus, ni.Releasing.scalarResources[*], ni.UsedVector[*], ni.IdleVector[*], ni.ReleasingVector[*], ni.UsedSharedGPUsMemory[*], ni.ReleasingSharedGPUsMemory[*], ni.AllocatedSharedGPUsMemory[*], ni.ReleasingSharedGPUs[*], sumIdleGPUs(ni), sumIdleGPUMem(ni), sumReleasingGPUs(ni), sumReleasingGPUMem(ni)
 //@   loop 1
 //@     invariant 0 - 1 <= rangeindex && rangeindex < len(podInfos)
 //@     invariant nodeWF(ni) && podsWF(ni)
+//@     invariant forall i int :: 0 <= i && i < len(podInfos) ==> pod_status.isStatus(podInfos[i].Status)
 //@     invariant forall t *pod_info.PodInfo :: t.AcceptedResource == old(t.AcceptedResource) || acceptedFresh(t)
 //@     invariant len(resultPods) == rangeindex + 1 && (forall i int :: 0 <= i && i <= rangeindex ==> resultPods[i] == podInfos[i].Pod)
 //@     invariant forall k common_info.PodID :: old(k in ni.PodInfos) ==> k in ni.PodInfos
-//@     invariant forall i int :: 0 <= i && i <= rangeindex && pod_status.inActiveUsed(podInfos[i].Status) ==> pod_info.podKeyOf(podInfos[i].Pod) in ni.PodInfos
+//@     invariant forall i int :: 0 <= i && i <= rangeindex && pod_status.stActiveUsed(podInfos[i].Status) ==> pod_info.podKeyOf(podInfos[i].Pod) in ni.PodInfos
 //@     invariant forall k common_info.PodID :: old(k in existingPodsMap) ==> k in existingPodsMap
 //@     invariant forall i int :: 0 <= i && i <= rangeindex ==> podInfos[i].UID in existingPodsMap && existingPodsMap[podInfos[i].UID] != nil && existingPodsMap[podInfos[i].UID].UID == podInfos[i].UID
 //@     invariant old(forall k in ni.PodInfos :: ni.PodInfos[k] != nil) ==> (forall k in ni.PodInfos :: ni.PodInfos[k] != nil)
 //@     invariant rangeindex == 0 - 1 ==> acctUntouched(ni) && acctScalarsUntouched(ni)
-//@     invariant rangeindex == 0 && !pod_status.inActiveUsed(podInfos[0].Status) ==> acctUntouched(ni) && acctScalarsUntouched(ni)
-//@     invariant rangeindex == 0 && pod_status.inActiveUsed(podInfos[0].Status) && !old(pod_info.podKeyOf(podInfos[0].Pod) in ni.PodInfos) ==> firstCharged(ni, podInfos[0])
+//@     invariant rangeindex == 0 - 1 ==> (forall k common_info.PodID :: (k in ni.PodInfos) == old(k in ni.PodInfos))
+//@     invariant rangeindex == 0 && !pod_status.stActiveUsed(podInfos[0].Status) ==> acctUntouched(ni) && acctScalarsUntouched(ni)
+//@     invariant rangeindex == 0 && pod_status.stActiveUsed(podInfos[0].Status) && !old(pod_info.podKeyOf(podInfos[0].Pod) in ni.PodInfos) ==> firstCharged(ni, podInfos[0])
 //@   ensures [allReturned] len(resultPods) == len(podInfos) && (forall i int :: 0 <= i && i < len(podInfos) ==> resultPods[i] == podInfos[i].Pod)
-//@   ensures [occupyingPodsRecorded] forall i int :: 0 <= i && i < len(podInfos) && pod_status.inActiveUsed(podInfos[i].Status) ==> pod_info.podKeyOf(podInfos[i].Pod) in ni.PodInfos
+//@   ensures [occupyingPodsRecorded] forall i int :: 0 <= i && i < len(podInfos) && pod_status.stActiveUsed(podInfos[i].Status) ==> pod_info.podKeyOf(podInfos[i].Pod) in ni.PodInfos
 //@   ensures [noPodNothingCharged] len(podInfos) == 0 ==> acctUntouched(ni) && acctScalarsUntouched(ni)
-//@   ensures [onePodNotOccupying] len(podInfos) == 1 && !pod_status.inActiveUsed(podInfos[0].Status) ==> acctUntouched(ni) && acctScalarsUntouched(ni)
-//@   ensures [onePodOccupying] len(podInfos) == 1 && pod_status.inActiveUsed(podInfos[0].Status) && !old(pod_info.podKeyOf(podInfos[0].Pod) in ni.PodInfos) ==> firstCharged(ni, podInfos[0])
+//@   ensures [onePodNotOccupying] len(podInfos) == 1 && !pod_status.stActiveUsed(podInfos[0].Status) ==> acctUntouched(ni) && acctScalarsUntouched(ni)
+//@   ensures [onePodOccupying] len(podInfos) == 1 && pod_status.stActiveUsed(podInfos[0].Status) && !old(pod_info.podKeyOf(podInfos[0].Pod) in ni.PodInfos) ==> firstCharged(ni, podInfos[0])
 //@   ensures [registered] forall i int :: 0 <= i && i < len(podInfos) ==> podInfos[i].UID in existingPodsMap && existingPodsMap[podInfos[i].UID] != nil && existingPodsMap[podInfos[i].UID].UID == podInfos[i].UID
 //@   ensures [registeredKept] forall k common_info.PodID :: old(k in existingPodsMap) ==> k in existingPodsMap
 //@   ensures [recordedKept] forall k common_info.PodID :: old(k in ni.PodInfos) ==> k in ni.PodInfos
